@@ -12,7 +12,7 @@ import z3
 BOUNDS = {
     "quick": "case flips of symbolic ASCII letters in scheme / host / path / query / fragment (holes of length <= 2); any port 1..65535 (symbolic 1-5 digit string); "
              "language labels 'xx' and 'xx-yy' with symbolic letters drawn from the ISO-3166 set in front of hosts with 2 and 3 labels; gl / hl items at 3 positions with symbolic values; "
-             "strip_suffix=True across 10 bundled suffixes of 1-4 labels (plain / wildcard instance / private); result has no scheme / userinfo / port on the 15 shared skeletons with holes of length <= 2",
+             "strip_suffix=True across 10 bundled suffixes of 1-4 labels (plain / wildcard instance / private); result has no scheme / userinfo / port on the 18 shared skeletons with holes of length <= 2",
     "thorough": "holes of length <= 3",
 }
 STUBS = ["see C01; ISO-3166 membership as a disjunction over the live set"]
